@@ -60,6 +60,12 @@ AUDIT_INPUTS = [(m, None) for m in [
     (" x<b>y", "table"), ("x <b> y<td>z", "tr"), ("<li>a<li>b", "tbody"), ("<select><tr>x", "caption"), ("<select><tr>x", "tr")]
 
 
+# what a reused parser may have parsed before: open forms, heads, pending table text, formatting elements, quirks ...
+FIRST = ["<form>", "<form><table><tr><td>x", "<table>pending", "<head><title>t", "<b><i><a href=x>", "<frameset>", "<select><option>",
+         "<!DOCTYPE html PUBLIC \"-//W3C//DTD HTML 3.2//EN\"><p>", "<pre>\n", "<svg><g>", "<table><caption>", "<script>x", "<textarea>",
+         "<body a=b><form id=f><input>", "<math><mi>", "<p><button><p>", "<html lang=x><head><base>"]
+
+
 def markup(rng):
     r = rng.random()
     if r < 0.35:
@@ -109,8 +115,12 @@ class C01(Plugin):
     def cases(self, rng, n, tier):
         for i in range(n):
             frag = rng.random() < 0.3
-            yield {"markup": markup(rng), "fragment": frag, "container": rng.choice(CONTAINERS) if frag else "div",
-                   "scripting": rng.random() < 0.25, "ns": rng.random() < 0.85}
+            c = {"markup": markup(rng), "fragment": frag, "container": rng.choice(CONTAINERS) if frag else "div",
+                 "scripting": rng.random() < 0.25, "ns": rng.random() < 0.85}
+            if rng.random() < 0.15:
+                c["first"] = rng.choice(FIRST)
+                c["first_fragment"] = rng.random() < 0.3
+            yield c
 
     def corpus(self):
         out = []
@@ -181,6 +191,13 @@ class C01(Plugin):
                 m = "<p>" + "".join("<%s %s>" % (f, a) for a in attrs)
                 for tail in ("</p><p>x", "<div>x</%s>y" % f, "</%s></%s>x<p>y" % (f, f), "<table><td>x</table></%s>" % f):
                     out.append({"markup": m + tail, "fragment": False, "container": "div", "scripting": False, "ns": True})
+        # a reused parser: an earlier parse left a form pointer, a head pointer, pending text ... behind
+        for first in FIRST:
+            for m in ("<form><input></form>x", "<table>y<tr><td>z", "<p>a<b>c", "<head></head><title>u</title>", " <li>x"):
+                out.append({"markup": m, "fragment": True, "container": "div", "scripting": False, "ns": True, "first": first,
+                            "first_fragment": False})
+                out.append({"markup": m, "fragment": False, "container": "div", "scripting": False, "ns": True, "first": first,
+                            "first_fragment": True})
         # inputs of the independent WHATWG audits (audit/*.md): deviations repaired since, and the ones still listed
         for m, frag in AUDIT_INPUTS:
             out.append({"markup": m, "fragment": frag is not None, "container": frag or "div", "scripting": False, "ns": True})
@@ -204,6 +221,12 @@ class C01(Plugin):
     def impl(self, case):
         import html5lib
         p = html5lib.HTMLParser(tree=html5lib.getTreeBuilder("dom"), namespaceHTMLElements=case["ns"])
+        if case.get("first") is not None:
+            # the parser object has been used before: the result may not depend on that
+            try:
+                (p.parseFragment if case.get("first_fragment") else p.parse)(case["first"])
+            except Exception:
+                pass
         try:
             if case["fragment"]:
                 doc = p.parseFragment(case["markup"], container=case["container"], scripting=case["scripting"])
